@@ -58,6 +58,7 @@ def r1_census(facts, rep, fx):
     rep.floor("C11-R1", "reachable hand-written functions", len(hw), 60)
     deps = {}
     pow_own = cg.exclusive("eval::pow")
+    round_own = cg.exclusive([r for r in ("eval::builtin::round", "eval::builtin::floor", "eval::builtin::ceil") if r in cg.local])
     fmt_own = cg.exclusive("<rational::display::Display<'_> as std::fmt::Display>::fmt")
     from . import c08 as _c08
     gen_code = _c08.generator_code_paths(facts)
@@ -108,6 +109,8 @@ def r1_census(facts, rep, fx):
             if kind == "panic":
                 macros = "/".join(m.split("::")[-1] for m in sp["macros"])
                 ent = PANIC_TABLE.get(p)
+                if ent is None and p in round_own:
+                    ent = ("integrality", "debug_assert!(integral result) in a helper only the rounding builtins use - discharged by C10-R6")
                 if ent is None and p in gen_code:
                     ent = ("frozen", "debug_assert!(digit < 10) in the long-division digit generator (found by role, C08-R1 analyses it): "
                                      "rem < den on entry is the invariant of long division; C08-R1 shows the panic sits only behind the "
